@@ -65,3 +65,881 @@ theorem nestAll_insertAll : ∀ (vs : List Value) (acc : List (Value × Value)),
     omega
 
 end Amqp.Codec
+
+/-! ## the invariant of the decoder on arbitrary input -/
+namespace Amqp.Codec
+open Amqp.Gen.Codes
+
+mutual
+  /-- what a value occupies: one unit per node plus its payload bytes -/
+  def mass : Value → Nat
+    | .null => 1
+    | .bool _ => 1
+    | .fixed _ bs => 1 + bs.length
+    | .var _ bs => 1 + bs.length
+    | .list vs => 1 + massAll vs
+    | .map vs => 1 + massAll vs
+    | .array vs => 1 + massAll vs
+    | .described d v => 1 + mass d + mass v
+  def massAll : List Value → Nat
+    | [] => 0
+    | v :: vs => mass v + massAll vs
+end
+
+theorem bind_ok {α β : Type} {x : Res α} {f : α → Res β} {b : β} (h : (x >>= f) = .ok b) :
+    ∃ a, x = .ok a ∧ f a = .ok b := by
+  cases x with
+  | error e => simp [bind, Except.bind] at h
+  | ok a => exact ⟨a, rfl, h⟩
+
+theorem IsSuffix.len {a b : Bytes} (h : IsSuffix a b) : a.length ≤ b.length := by
+  obtain ⟨p, rfl⟩ := h; simp
+
+theorem next?_len (bs : Bytes) (b : UInt8) (r : Bytes) (h : next? bs = .ok (b, r)) : r.length + 1 = bs.length := by
+  cases bs with
+  | nil => simp [next?] at h
+  | cons x xs => simp [next?] at h; obtain ⟨rfl, rfl⟩ := h; simp
+
+theorem take?_len (n : Nat) (bs a r : Bytes) (h : take? n bs = .ok (a, r)) :
+    a.length = n ∧ r.length + n = bs.length := by
+  unfold take? at h
+  split at h
+  · simp at h
+  · simp at h; obtain ⟨rfl, rfl⟩ := h; simp; omega
+
+/-- the scalar step: what is left is a suffix, the value is a leaf, and its mass is paid for by
+    the bytes consumed — or, for a constructor without a body, by one unit of slack -/
+theorem decScalar_inv (c : Nat) (r : Bytes) (v : Value) (r' : Bytes)
+    (h : decScalar c r = some (.ok (v, r'))) :
+    IsSuffix r' r ∧ nest v = 0 ∧
+    mass v + 17 * r'.length ≤ 17 * (r.length + (if zeroWidth c then 1 else 0)) := by
+  unfold decScalar at h
+  by_cases hc : c = cNull
+  · rw [if_pos hc] at h; simp at h; obtain ⟨rfl, rfl⟩ := h
+    simp [IsSuffix.refl, nest, mass, zeroWidth, hc]; omega
+  rw [if_neg hc] at h
+  by_cases hc1 : c = cBooleanTrue
+  · rw [if_pos hc1] at h; simp at h; obtain ⟨rfl, rfl⟩ := h
+    simp [IsSuffix.refl, nest, mass, zeroWidth, hc1]; omega
+  rw [if_neg hc1] at h
+  by_cases hc2 : c = cBooleanFalse
+  · rw [if_pos hc2] at h; simp at h; obtain ⟨rfl, rfl⟩ := h
+    simp [IsSuffix.refl, nest, mass, zeroWidth, hc2]; omega
+  rw [if_neg hc2] at h
+  by_cases hc3 : c = cBoolean
+  · rw [if_pos hc3] at h
+    simp only [Option.some.injEq] at h
+    obtain ⟨⟨b, r1⟩, h1, h⟩ := bind_ok h
+    have hl := next?_len _ _ _ h1
+    have hs := next?_suffix _ _ _ h1
+    simp only at h
+    by_cases hb0 : b = 0
+    · rw [if_pos hb0] at h; simp [pure, Except.pure] at h; obtain ⟨rfl, rfl⟩ := h
+      refine ⟨hs, by simp [nest], ?_⟩; simp [mass]; omega
+    rw [if_neg hb0] at h
+    by_cases hb1 : b = 1
+    · rw [if_pos hb1] at h; simp [pure, Except.pure] at h; obtain ⟨rfl, rfl⟩ := h
+      refine ⟨hs, by simp [nest], ?_⟩; simp [mass]; omega
+    rw [if_neg hb1] at h; simp at h
+  rw [if_neg hc3] at h
+  by_cases hc4 : c = cUint0
+  · rw [if_pos hc4] at h; simp at h; obtain ⟨rfl, rfl⟩ := h
+    simp [IsSuffix.refl, nest, mass, zeroWidth, hc4]; omega
+  rw [if_neg hc4] at h
+  by_cases hc5 : c = cUlong0
+  · rw [if_pos hc5] at h; simp at h; obtain ⟨rfl, rfl⟩ := h
+    simp [IsSuffix.refl, nest, mass, zeroWidth, hc5]; omega
+  rw [if_neg hc5] at h
+  by_cases hc6 : c = cSmallUint
+  · rw [if_pos hc6] at h
+    simp only [Option.some.injEq] at h
+    obtain ⟨⟨b, r1⟩, h1, h⟩ := bind_ok h
+    have hl := next?_len _ _ _ h1
+    have hs := next?_suffix _ _ _ h1
+    simp [pure, Except.pure] at h; obtain ⟨rfl, rfl⟩ := h
+    refine ⟨hs, by simp [nest], ?_⟩; simp [mass]; omega
+  rw [if_neg hc6] at h
+  by_cases hc7 : c = cSmallUlong
+  · rw [if_pos hc7] at h
+    simp only [Option.some.injEq] at h
+    obtain ⟨⟨b, r1⟩, h1, h⟩ := bind_ok h
+    have hl := next?_len _ _ _ h1
+    have hs := next?_suffix _ _ _ h1
+    simp [pure, Except.pure] at h; obtain ⟨rfl, rfl⟩ := h
+    refine ⟨hs, by simp [nest], ?_⟩; simp [mass]; omega
+  rw [if_neg hc7] at h
+  by_cases hc8 : c = cSmallInt
+  · rw [if_pos hc8] at h
+    simp only [Option.some.injEq] at h
+    obtain ⟨⟨b, r1⟩, h1, h⟩ := bind_ok h
+    have hl := next?_len _ _ _ h1
+    have hs := next?_suffix _ _ _ h1
+    simp [pure, Except.pure] at h; obtain ⟨rfl, rfl⟩ := h
+    refine ⟨hs, by simp [nest], ?_⟩; simp [mass]; omega
+  rw [if_neg hc8] at h
+  by_cases hc9 : c = cSmallLong
+  · rw [if_pos hc9] at h
+    simp only [Option.some.injEq] at h
+    obtain ⟨⟨b, r1⟩, h1, h⟩ := bind_ok h
+    have hl := next?_len _ _ _ h1
+    have hs := next?_suffix _ _ _ h1
+    simp [pure, Except.pure] at h; obtain ⟨rfl, rfl⟩ := h
+    refine ⟨hs, by simp [nest], ?_⟩; simp [mass]; omega
+  rw [if_neg hc9] at h
+  cases hk : kindOfCode c with
+  | some k =>
+    rw [hk] at h
+    simp only [Option.some.injEq] at h
+    obtain ⟨⟨pv, r1⟩, h1, h⟩ := bind_ok h
+    have hl := take?_len _ _ _ _ h1
+    have hs := take?_suffix _ _ _ _ h1
+    have hw : 1 ≤ k.width ∧ k.width ≤ 16 := by cases k <;> decide
+    simp only at h
+    split at h
+    · simp at h
+    · simp [pure, Except.pure] at h; obtain ⟨rfl, rfl⟩ := h
+      refine ⟨hs, by simp [nest], ?_⟩; simp [mass]; omega
+  | none =>
+    rw [hk] at h
+    cases hv : varOfCode c with
+    | none => rw [hv] at h; simp at h
+    | some kw =>
+      obtain ⟨k, wide⟩ := kw
+      rw [hv] at h
+      simp only [Option.some.injEq] at h
+      obtain ⟨⟨len, r1⟩, h1, h⟩ := bind_ok h
+      simp only at h
+      obtain ⟨⟨pv, r2⟩, h2, h⟩ := bind_ok h
+      have hl2 := take?_len _ _ _ _ h2
+      have hs2 := take?_suffix _ _ _ _ h2
+      have hs1 : IsSuffix r1 r ∧ r1.length + 1 ≤ r.length := by
+        cases wide with
+        | true =>
+          simp only [if_true] at h1
+          obtain ⟨⟨l, r0⟩, h0, h1⟩ := bind_ok h1
+          simp [pure, Except.pure] at h1; obtain ⟨_, rfl⟩ := h1
+          have := take?_len _ _ _ _ h0
+          exact ⟨take?_suffix _ _ _ _ h0, by omega⟩
+        | false =>
+          simp only [Bool.false_eq_true, if_false] at h1
+          obtain ⟨⟨l, r0⟩, h0, h1⟩ := bind_ok h1
+          simp [pure, Except.pure] at h1; obtain ⟨_, rfl⟩ := h1
+          have := next?_len _ _ _ h0
+          exact ⟨next?_suffix _ _ _ h0, by omega⟩
+      simp only at h
+      split at h
+      · simp at h
+      · simp [pure, Except.pure] at h; obtain ⟨rfl, rfl⟩ := h
+        refine ⟨IsSuffix.trans hs2 hs1.1, by simp [nest], ?_⟩; simp [mass]; omega
+
+def slack (st : DSt) : Nat :=
+  match st.ec with
+  | some c => if zeroWidth c then 1 else 0
+  | none => 0
+
+/-- what one decoding step guarantees, on any input -/
+structure StepInv (depth : Nat) (st : DSt) (v : Value) (s : DSt) : Prop where
+  suffix : IsSuffix s.rest st.rest
+  zw : s.zw ≤ st.zw
+  nest : nest v ≤ depth
+  mass : mass v + 17 * (s.rest.length + s.zw) ≤ 17 * (st.rest.length + st.zw + slack st)
+  slack : slack s ≤ slack st
+
+structure SeqInv (depth count : Nat) (st : DSt) (vs : List Value) (s : DSt) : Prop where
+  suffix : IsSuffix s.rest st.rest
+  zw : s.zw ≤ st.zw
+  nest : nestAll vs ≤ depth
+  mass : massAll vs + 17 * (s.rest.length + s.zw) ≤ 17 * (st.rest.length + st.zw + count * slack st)
+  slack : slack s ≤ slack st
+  len : vs.length = count
+
+theorem hdr_inv (w : Bool) (r : Bytes) (p : Nat × Bytes)
+    (h : (if w = true then do let x ← take? 4 r; pure (fromBe x.fst, x.snd)
+          else do let x ← next? r; pure (x.fst.toNat, x.snd) : Res (Nat × Bytes)) = .ok p) :
+    IsSuffix p.snd r ∧ p.snd.length + 1 ≤ r.length := by
+  cases w with
+  | true =>
+    simp only [if_true] at h
+    obtain ⟨x, h0, h1⟩ := bind_ok h
+    simp [pure, Except.pure] at h1; subst h1
+    have := take?_len _ _ _ _ h0
+    exact ⟨take?_suffix _ _ _ _ h0, by simp; omega⟩
+  | false =>
+    simp only [Bool.false_eq_true, if_false] at h
+    obtain ⟨x, h0, h1⟩ := bind_ok h
+    simp [pure, Except.pure] at h1; subst h1
+    have := next?_len _ _ _ h0
+    exact ⟨next?_suffix _ _ _ h0, by simp; omega⟩
+
+theorem codeOrPeek_inv (ec : Option Nat) (bs : Bytes) (c : Nat) (h : codeOrPeek ec bs = .ok c) :
+    ec = some c ∨ (ec = none ∧ ∃ b r, bs = b :: r ∧ b.toNat = c) := by
+  unfold codeOrPeek at h
+  cases ec with
+  | some x => simp at h; exact Or.inl (by rw [h])
+  | none =>
+    cases bs with
+    | nil => simp at h
+    | cons b t =>
+      simp only at h
+      split at h
+      · simp at h; exact Or.inr ⟨rfl, b, t, rfl, h⟩
+      · simp at h
+
+theorem codeOrRead_inv (ec : Option Nat) (bs : Bytes) (p : Nat × Bytes) (h : codeOrRead ec bs = .ok p) :
+    (ec = some p.fst ∧ p.snd = bs) ∨ (ec = none ∧ ∃ b, bs = b :: p.snd ∧ b.toNat = p.fst) := by
+  unfold codeOrRead at h
+  cases ec with
+  | some x => simp at h; subst h; exact Or.inl ⟨rfl, rfl⟩
+  | none =>
+    cases bs with
+    | nil => simp at h
+    | cons b t =>
+      simp only at h
+      split at h
+      · simp at h; subst h; exact Or.inr ⟨rfl, b, rfl, rfl⟩
+      · simp at h
+
+macro "drop_if " h:ident " with " hx:ident " : " c:term : tactic =>
+  `(tactic| (have $hx : ¬ $c := by
+               intro hpos; rw [if_pos hpos] at $h:ident; simp at $h:ident
+             rw [if_neg $hx] at $h:ident))
+
+@[simp] theorem slack_mk_none (r : Bytes) (z : Nat) : slack { rest := r, ec := none, zw := z } = 0 := rfl
+
+theorem slack_le_one (st : DSt) : slack st ≤ 1 := by
+  unfold slack; split
+  · split <;> omega
+  · omega
+
+theorem massAll_mapInsert (acc : List (Value × Value)) (k v : Value) :
+    massAll (flattenPairs (mapInsert acc k v)) ≤ massAll (flattenPairs acc) + mass k + mass v := by
+  induction acc with
+  | nil => simp [mapInsert, flattenPairs, massAll]
+  | cons p rest ih =>
+    obtain ⟨k', v'⟩ := p
+    simp only [mapInsert]
+    split
+    · simp only [flattenPairs, massAll]; omega
+    · simp only [flattenPairs, massAll] at ih ⊢; omega
+
+theorem massAll_insertAll : ∀ (vs : List Value) (acc : List (Value × Value)),
+    massAll (flattenPairs (insertAll acc vs)) ≤ massAll (flattenPairs acc) + massAll vs
+  | [], acc => by simp [insertAll, massAll]
+  | [x], acc => by simp [insertAll, massAll]
+  | k :: v :: rest, acc => by
+    have h1 := massAll_insertAll rest (mapInsert acc k v)
+    have h2 := massAll_mapInsert acc k v
+    simp only [insertAll, massAll] at h1 ⊢
+    omega
+
+theorem dec_step (fuel : Nat)
+    (ihN : ∀ depth count st vs s, decN fuel depth count st = .ok (vs, s) → SeqInv depth count st vs s)
+    (ihA : ∀ depth count st a b vs s, decArr fuel depth count st a b = .ok (vs, s) → SeqInv depth count st vs s)
+    (ihD : ∀ depth st v s, dec fuel depth st = .ok (v, s) → StepInv depth st v s)
+    (depth : Nat) (st : DSt) (v : Value) (s : DSt) (h : dec (fuel + 1) depth st = .ok (v, s)) :
+    StepInv depth st v s := by
+  unfold dec at h
+  dsimp only at h
+  replace h := bind_ok h
+  obtain ⟨c, hc, h⟩ := h
+  have hpk := codeOrPeek_inv _ _ _ hc
+  have hs1 := slack_le_one st
+  by_cases hd : c = cDescribedType
+  · rw [if_pos hd] at h
+    drop_if h with hd0 : depth = 0
+    rcases hpk with he | ⟨he, b, r, hr, hb⟩
+    · rw [he] at h; dsimp only at h
+      cases hrest : st.rest with
+      | nil => rw [hrest] at h; simp at h
+      | cons b t => rw [hrest] at h; dsimp only at h; split at h <;> simp at h
+    · rw [he, hr] at h; dsimp only at h
+      cases r with
+      | nil => simp at h
+      | cons dc tail =>
+        dsimp only at h
+        split at h
+        · replace h := bind_ok h
+          obtain ⟨x1, hx1, h⟩ := h
+          have i1 := ihD _ _ _ _ hx1
+          drop_if h with hemp : List.isEmpty x1.snd.rest = true
+          replace h := bind_ok h
+          obtain ⟨x2, hx2, h⟩ := h
+          have i2 := ihD _ _ _ _ hx2
+          simp [pure, Except.pure] at h
+          obtain ⟨rfl, rfl⟩ := h
+          have m1 := i1.mass; have m2 := i2.mass
+          have sl1 := i1.slack; have sl2 := i2.slack
+          have z1 := i1.zw; have z2 := i2.zw
+          have n1 := i1.nest; have n2 := i2.nest
+          have f1 := i1.suffix; have f2 := i2.suffix
+          simp only [slack_mk_none] at m1 sl1
+          dsimp only at f1 z1 m1
+          refine ⟨?_, ?_, ?_, ?_, ?_⟩
+          · rw [hr]; exact IsSuffix.trans f2 (IsSuffix.trans f1 (IsSuffix.cons _ _))
+          · omega
+          · simp only [nest]; omega
+          · simp only [mass, hr, List.length_cons]; simp only [List.length_cons] at m1; omega
+          · omega
+        · split at h <;> simp at h
+  rw [if_neg hd] at h
+  by_cases hl0 : c = cList0
+  · rw [if_pos hl0] at h
+    replace h := bind_ok h
+    obtain ⟨p, hp, h⟩ := h
+    have hrd := codeOrRead_inv _ _ _ hp
+    drop_if h with hd0 : depth = 0
+    simp [pure, Except.pure] at h
+    obtain ⟨rfl, rfl⟩ := h
+    rcases hrd with ⟨he, hr⟩ | ⟨he, b, hr, hb⟩
+    · have hsl : slack st = 1 := by
+        rcases hpk with he' | ⟨he', _⟩
+        · simp [slack, he', hl0, zeroWidth]
+        · rw [he] at he'; simp at he'
+      refine ⟨by rw [hr]; exact IsSuffix.refl _, Nat.le_refl _, by simp [nest, nestAll]; omega, ?_, by simp [slack]⟩
+      simp [mass, massAll, hr]; omega
+    · refine ⟨by rw [hr]; exact IsSuffix.cons _ _, Nat.le_refl _, by simp [nest, nestAll]; omega, ?_, by simp [slack]⟩
+      simp [mass, massAll, hr]; omega
+  rw [if_neg hl0] at h
+  by_cases hl : c = cList8 ∨ c = cList32
+  · rw [if_pos hl] at h
+    replace h := bind_ok h
+    obtain ⟨p, hp, h⟩ := h
+    have hrd := codeOrRead_inv _ _ _ hp
+    replace h := bind_ok h
+    obtain ⟨q1, hq1, h⟩ := h
+    replace h := bind_ok h
+    obtain ⟨q2, hq2, h⟩ := h
+    have h1 := hdr_inv _ _ _ hq1
+    have h2 := hdr_inv _ _ _ hq2
+    drop_if h with hx1 : (decide (c = cList32) && decide (q2.fst > MAX_ARRAY_COUNT)) = true
+    drop_if h with hx2 : q1.fst < if decide (c = cList32) = true then OFFSET_LIST32 else OFFSET_LIST8
+    drop_if h with hd0 : depth = 0
+    replace h := bind_ok h
+    obtain ⟨r, hr, h⟩ := h
+    have hi := ihN _ _ _ _ _ hr
+    simp [pure, Except.pure] at h
+    obtain ⟨rfl, rfl⟩ := h
+    have hps : IsSuffix p.snd st.rest ∧ p.snd.length ≤ st.rest.length := by
+      rcases hrd with ⟨_, hr⟩ | ⟨_, b, hr, _⟩
+      · rw [hr]; exact ⟨IsSuffix.refl _, Nat.le_refl _⟩
+      · rw [hr]; exact ⟨IsSuffix.cons _ _, by simp⟩
+    have m := hi.mass; have sl := hi.slack; have z := hi.zw; have n := hi.nest; have f := hi.suffix
+    simp only [slack_mk_none] at m sl
+    dsimp only at z f m
+    refine ⟨IsSuffix.trans f (IsSuffix.trans h2.1 (IsSuffix.trans h1.1 hps.1)), z, by simp only [nest]; omega, ?_, by omega⟩
+    simp only [mass]; omega
+  rw [if_neg hl] at h
+  by_cases hm : c = cMap8 ∨ c = cMap32
+  · rw [if_pos hm] at h
+    replace h := bind_ok h
+    obtain ⟨p, hp, h⟩ := h
+    have hrd := codeOrRead_inv _ _ _ hp
+    replace h := bind_ok h
+    obtain ⟨q1, hq1, h⟩ := h
+    replace h := bind_ok h
+    obtain ⟨q2, hq2, h⟩ := h
+    have h1 := hdr_inv _ _ _ hq1
+    have h2 := hdr_inv _ _ _ hq2
+    drop_if h with hx1 : (decide (c = cMap32) && decide (q2.fst > MAX_ARRAY_COUNT)) = true
+    drop_if h with hx2 : q1.fst < if decide (c = cMap32) = true then OFFSET_MAP32 else OFFSET_MAP8
+    drop_if h with hx3 : q2.fst % 2 ≠ 0
+    drop_if h with hd0 : depth = 0
+    replace h := bind_ok h
+    obtain ⟨r, hr, h⟩ := h
+    have hi := ihN _ _ _ _ _ hr
+    simp [pure, Except.pure] at h
+    obtain ⟨rfl, rfl⟩ := h
+    have hps : IsSuffix p.snd st.rest ∧ p.snd.length ≤ st.rest.length := by
+      rcases hrd with ⟨_, hr⟩ | ⟨_, b, hr, _⟩
+      · rw [hr]; exact ⟨IsSuffix.refl _, Nat.le_refl _⟩
+      · rw [hr]; exact ⟨IsSuffix.cons _ _, by simp⟩
+    have hnz : zeroWidth c = false := by rcases hm with rfl | rfl <;> decide
+    have hsl : slack st = 0 := by
+      rcases hpk with he | ⟨he, _⟩
+      · simp [slack, he, hnz]
+      · simp [slack, he]
+    have e0 : slack ({ rest := q2.snd, ec := st.ec, zw := st.zw } : DSt) = 0 := hsl
+    have m := hi.mass; have sl := hi.slack; have z := hi.zw; have n := hi.nest; have f := hi.suffix
+    rw [e0] at m sl
+    dsimp only at z f m
+    have mm := massAll_insertAll r.fst []
+    have nn := nestAll_insertAll r.fst []
+    simp only [flattenPairs, massAll, nestAll] at mm nn
+    refine ⟨IsSuffix.trans f (IsSuffix.trans h2.1 (IsSuffix.trans h1.1 hps.1)), z, by simp only [nest]; omega, ?_, by omega⟩
+    simp only [mass]; omega
+  rw [if_neg hm] at h
+  by_cases ha : c = cArray8 ∨ c = cArray32
+  · rw [if_pos ha] at h
+    replace h := bind_ok h
+    obtain ⟨p, hp, h⟩ := h
+    have hrd := codeOrRead_inv _ _ _ hp
+    replace h := bind_ok h
+    obtain ⟨q1, hq1, h⟩ := h
+    replace h := bind_ok h
+    obtain ⟨q2, hq2, h⟩ := h
+    have h1 := hdr_inv _ _ _ hq1
+    have h2 := hdr_inv _ _ _ hq2
+    have hps : IsSuffix p.snd st.rest ∧ p.snd.length ≤ st.rest.length := by
+      rcases hrd with ⟨_, hr⟩ | ⟨_, b, hr, _⟩
+      · rw [hr]; exact ⟨IsSuffix.refl _, Nat.le_refl _⟩
+      · rw [hr]; exact ⟨IsSuffix.cons _ _, by simp⟩
+    drop_if h with hx1 : q2.fst > MAX_ARRAY_COUNT ∨ q2.fst > q1.fst
+    by_cases hz : q2.fst = 0
+    · rw [if_pos hz] at h
+      drop_if h with hd0 : depth = 0
+      simp [pure, Except.pure] at h
+      obtain ⟨rfl, rfl⟩ := h
+      refine ⟨IsSuffix.trans h2.1 (IsSuffix.trans h1.1 hps.1), Nat.le_refl _, by simp [nest, nestAll]; omega, ?_, by simp⟩
+      simp [mass, massAll]; omega
+    rw [if_neg hz] at h
+    replace h := bind_ok h
+    obtain ⟨x3, hx3, h⟩ := h
+    have h3l := next?_len _ _ _ hx3
+    have h3s := next?_suffix _ _ _ hx3
+    drop_if h with hx4 : (!isCode x3.fst.toNat) = true
+    drop_if h with hx5 : (zeroWidth x3.fst.toNat && decide (st.zw < q2.fst)) = true
+    drop_if h with hx6 : q1.fst < if decide (c = cArray32) = true then OFFSET_ARRAY32 else OFFSET_ARRAY8
+    drop_if h with hd0 : depth = 0
+    replace h := bind_ok h
+    obtain ⟨r, hr, h⟩ := h
+    have hi := ihA _ _ _ _ _ _ _ hr
+    simp [pure, Except.pure] at h
+    obtain ⟨rfl, rfl⟩ := h
+    have m := hi.mass; have z := hi.zw; have n := hi.nest; have f := hi.suffix
+    dsimp only at z f m
+    refine ⟨IsSuffix.trans f (IsSuffix.trans h3s (IsSuffix.trans h2.1 (IsSuffix.trans h1.1 hps.1))), ?_, by simp only [nest]; omega, ?_, by simp⟩
+    · show r.snd.zw ≤ st.zw
+      cases hzw : zeroWidth x3.fst.toNat <;> simp [hzw] at z <;> omega
+    · simp only [mass]
+      cases hzw : zeroWidth x3.fst.toNat
+      · simp [slack, hzw] at m; omega
+      · simp [slack, hzw] at m hx5; omega
+  rw [if_neg ha] at h
+  replace h := bind_ok h
+  obtain ⟨p, hp, h⟩ := h
+  have hrd := codeOrRead_inv _ _ _ hp
+  cases hds : decScalar p.fst p.snd with
+  | none => rw [hds] at h; simp at h
+  | some res =>
+    rw [hds] at h; dsimp only at h
+    replace h := bind_ok h
+    obtain ⟨x, hx, h⟩ := h
+    subst hx
+    have hi := decScalar_inv _ _ x.fst x.snd hds
+    simp [pure, Except.pure] at h
+    obtain ⟨rfl, rfl⟩ := h
+    obtain ⟨hf, hn, hm⟩ := hi
+    rcases hrd with ⟨he, hr⟩ | ⟨he, b, hr, hb⟩
+    · refine ⟨by rw [← hr]; exact hf, Nat.le_refl _, by omega, ?_, by simp [slack]⟩
+      have : slack st = if zeroWidth p.fst then 1 else 0 := by simp [slack, he]
+      rw [hr] at hm; (try dsimp only); omega
+    · refine ⟨by rw [hr]; exact IsSuffix.trans hf (IsSuffix.cons _ _), Nat.le_refl _, by omega, ?_, by simp [slack]⟩
+      have : (if zeroWidth p.fst then 1 else 0) ≤ 1 := by split <;> omega
+      rw [hr]; simp only [List.length_cons]; (try dsimp only); omega
+
+theorem decN_step (fuel : Nat)
+    (ihN : ∀ depth count st vs s, decN fuel depth count st = .ok (vs, s) → SeqInv depth count st vs s)
+    (ihD : ∀ depth st v s, dec fuel depth st = .ok (v, s) → StepInv depth st v s)
+    (depth count : Nat) (st : DSt) (vs : List Value) (s : DSt) (h : decN (fuel + 1) depth count st = .ok (vs, s)) :
+    SeqInv depth count st vs s := by
+  unfold decN at h
+  cases count with
+  | zero =>
+    simp [pure, Except.pure] at h
+    obtain ⟨rfl, rfl⟩ := h
+    exact ⟨IsSuffix.refl _, Nat.le_refl _, by simp [nestAll], by simp [massAll], Nat.le_refl _, rfl⟩
+  | succ n =>
+    dsimp only at h
+    replace h := bind_ok h
+    obtain ⟨x, hx, h⟩ := h
+    replace h := bind_ok h
+    obtain ⟨y, hy, h⟩ := h
+    simp [pure, Except.pure] at h
+    obtain ⟨rfl, rfl⟩ := h
+    have i1 := ihD _ _ _ _ hx
+    have i2 := ihN _ _ _ _ _ hy
+    have m1 := i1.mass; have m2 := i2.mass
+    have hmul : n * slack x.snd ≤ n * slack st := Nat.mul_le_mul_left n i1.slack
+    have hs : (n + 1) * slack st = n * slack st + slack st := Nat.succ_mul n _
+    refine ⟨IsSuffix.trans i2.suffix i1.suffix, Nat.le_trans i2.zw i1.zw, ?_, ?_, Nat.le_trans i2.slack i1.slack, by simp [i2.len]⟩
+    · simp only [nestAll]; have := i1.nest; have := i2.nest; omega
+    · simp only [massAll]; omega
+
+theorem decArr_step (fuel : Nat)
+    (ihA : ∀ depth count st a b vs s, decArr fuel depth count st a b = .ok (vs, s) → SeqInv depth count st vs s)
+    (ihD : ∀ depth st v s, dec fuel depth st = .ok (v, s) → StepInv depth st v s)
+    (depth count : Nat) (st : DSt) (a b : Nat) (vs : List Value) (s : DSt)
+    (h : decArr (fuel + 1) depth count st a b = .ok (vs, s)) :
+    SeqInv depth count st vs s := by
+  unfold decArr at h
+  cases count with
+  | zero =>
+    simp [pure, Except.pure] at h
+    obtain ⟨rfl, rfl⟩ := h
+    exact ⟨IsSuffix.refl _, Nat.le_refl _, by simp [nestAll], by simp [massAll], by simp, rfl⟩
+  | succ n =>
+    dsimp only at h
+    replace h := bind_ok h
+    obtain ⟨x, hx, h⟩ := h
+    drop_if h with hsz : a - x.snd.rest.length > b
+    replace h := bind_ok h
+    obtain ⟨y, hy, h⟩ := h
+    simp [pure, Except.pure] at h
+    obtain ⟨rfl, rfl⟩ := h
+    have i1 := ihD _ _ _ _ hx
+    have i2 := ihA _ _ _ _ _ _ _ hy
+    have m1 := i1.mass; have m2 := i2.mass
+    have hmul : n * slack x.snd ≤ n * slack st := Nat.mul_le_mul_left n i1.slack
+    have hs : (n + 1) * slack st = n * slack st + slack st := Nat.succ_mul n _
+    refine ⟨IsSuffix.trans i2.suffix i1.suffix, Nat.le_trans i2.zw i1.zw, ?_, ?_, Nat.le_trans i2.slack i1.slack, by simp [i2.len]⟩
+    · simp only [nestAll]; have := i1.nest; have := i2.nest; omega
+    · simp only [massAll]; omega
+
+theorem dec_inv : ∀ (fuel : Nat),
+    (∀ depth st v s, dec fuel depth st = .ok (v, s) → StepInv depth st v s) ∧
+    (∀ depth count st vs s, decN fuel depth count st = .ok (vs, s) → SeqInv depth count st vs s) ∧
+    (∀ depth count st a b vs s, decArr fuel depth count st a b = .ok (vs, s) → SeqInv depth count st vs s)
+  | 0 => by
+    refine ⟨?_, ?_, ?_⟩
+    · intro depth st v s h; unfold dec at h; simp at h
+    · intro depth count st vs s h; unfold decN at h; simp at h
+    · intro depth count st a b vs s h; unfold decArr at h; simp at h
+  | fuel + 1 => by
+    obtain ⟨ihD, ihN, ihA⟩ := dec_inv fuel
+    exact ⟨dec_step fuel ihN ihA ihD, decN_step fuel ihN ihD, decArr_step fuel ihA ihD⟩
+
+end Amqp.Codec
+
+/-! ## the model's recursion budget never runs out -/
+namespace Amqp.Codec
+open Amqp.Gen.Codes
+
+theorem bind_err {α β : Type} {x : Res α} {f : α → Res β} {e : DErr} (h : (x >>= f) = .error e) :
+    x = .error e ∨ ∃ a, x = .ok a ∧ f a = .error e := by
+  cases x with
+  | error e' => simp [bind, Except.bind] at h; exact Or.inl (by rw [h])
+  | ok a => exact Or.inr ⟨a, rfl, h⟩
+
+/-- fuel that `dec` needs at a given remaining depth: one level of at most `MAX_ARRAY_COUNT` entries per depth -/
+def need (depth : Nat) : Nat := depth * (MAX_ARRAY_COUNT + 3) + 1
+
+theorem next?_nofuel (bs : Bytes) : next? bs ≠ .error .fuel := by
+  cases bs <;> simp [next?]
+theorem take?_nofuel (n : Nat) (bs : Bytes) : take? n bs ≠ .error .fuel := by
+  unfold take?; split <;> simp
+theorem codeOrPeek_nofuel (ec : Option Nat) (bs : Bytes) : codeOrPeek ec bs ≠ .error .fuel := by
+  unfold codeOrPeek
+  cases ec with
+  | some c => simp
+  | none => cases bs with
+    | nil => simp
+    | cons b t => simp only; split <;> simp
+theorem codeOrRead_nofuel (ec : Option Nat) (bs : Bytes) : codeOrRead ec bs ≠ .error .fuel := by
+  unfold codeOrRead
+  cases ec with
+  | some c => simp
+  | none => cases bs with
+    | nil => simp
+    | cons b t => simp only; split <;> simp
+
+theorem hdr_nofuel (w : Bool) (r : Bytes) :
+    (if w = true then do let x ← take? 4 r; pure (fromBe x.fst, x.snd)
+     else do let x ← next? r; pure (x.fst.toNat, x.snd) : Res (Nat × Bytes)) ≠ .error .fuel := by
+  intro h
+  cases w with
+  | true =>
+    simp only [if_true] at h
+    rcases bind_err h with h0 | ⟨a, _, h1⟩
+    · exact take?_nofuel _ _ h0
+    · simp [pure, Except.pure] at h1
+  | false =>
+    simp only [Bool.false_eq_true, if_false] at h
+    rcases bind_err h with h0 | ⟨a, _, h1⟩
+    · exact next?_nofuel _ h0
+    · simp [pure, Except.pure] at h1
+
+/-- the count a header step returns is below 256 for the one-byte form -/
+theorem hdr_small (r : Bytes) (p : Nat × Bytes)
+    (h : (do let x ← next? r; pure (x.fst.toNat, x.snd) : Res (Nat × Bytes)) = .ok p) : p.fst < 256 := by
+  obtain ⟨x, h0, h1⟩ := bind_ok h
+  simp [pure, Except.pure] at h1; subst h1
+  exact x.fst.toNat_lt
+
+
+theorem decScalar_nofuel (c : Nat) (r : Bytes) : decScalar c r ≠ some (.error .fuel) := by
+  intro h
+  unfold decScalar at h
+  by_cases hc : c = cNull
+  · rw [if_pos hc] at h; simp at h
+  rw [if_neg hc] at h
+  by_cases hc1 : c = cBooleanTrue
+  · rw [if_pos hc1] at h; simp at h
+  rw [if_neg hc1] at h
+  by_cases hc2 : c = cBooleanFalse
+  · rw [if_pos hc2] at h; simp at h
+  rw [if_neg hc2] at h
+  by_cases hc3 : c = cBoolean
+  · rw [if_pos hc3] at h
+    simp only [Option.some.injEq] at h
+    rcases bind_err h with h0 | ⟨x, hx, h⟩
+    · exact next?_nofuel _ h0
+    try dsimp only at h
+    split at h
+    · simp [pure, Except.pure] at h
+    · split at h <;> simp [pure, Except.pure] at h
+  rw [if_neg hc3] at h
+  by_cases hc4 : c = cUint0
+  · rw [if_pos hc4] at h; simp at h
+  rw [if_neg hc4] at h
+  by_cases hc5 : c = cUlong0
+  · rw [if_pos hc5] at h; simp at h
+  rw [if_neg hc5] at h
+  by_cases hc6 : c = cSmallUint
+  · rw [if_pos hc6] at h
+    simp only [Option.some.injEq] at h
+    rcases bind_err h with h0 | ⟨x, hx, h⟩
+    · exact next?_nofuel _ h0
+    simp [pure, Except.pure] at h
+  rw [if_neg hc6] at h
+  by_cases hc7 : c = cSmallUlong
+  · rw [if_pos hc7] at h
+    simp only [Option.some.injEq] at h
+    rcases bind_err h with h0 | ⟨x, hx, h⟩
+    · exact next?_nofuel _ h0
+    simp [pure, Except.pure] at h
+  rw [if_neg hc7] at h
+  by_cases hc8 : c = cSmallInt
+  · rw [if_pos hc8] at h
+    simp only [Option.some.injEq] at h
+    rcases bind_err h with h0 | ⟨x, hx, h⟩
+    · exact next?_nofuel _ h0
+    simp [pure, Except.pure] at h
+  rw [if_neg hc8] at h
+  by_cases hc9 : c = cSmallLong
+  · rw [if_pos hc9] at h
+    simp only [Option.some.injEq] at h
+    rcases bind_err h with h0 | ⟨x, hx, h⟩
+    · exact next?_nofuel _ h0
+    simp [pure, Except.pure] at h
+  rw [if_neg hc9] at h
+  cases hk : kindOfCode c with
+  | some k =>
+    rw [hk] at h
+    simp only [Option.some.injEq] at h
+    rcases bind_err h with h0 | ⟨x, hx, h⟩
+    · exact take?_nofuel _ _ h0
+    try dsimp only at h
+    split at h <;> simp [pure, Except.pure] at h
+  | none =>
+    rw [hk] at h
+    cases hv : varOfCode c with
+    | none => rw [hv] at h; simp at h
+    | some kw =>
+      obtain ⟨k, wide⟩ := kw
+      rw [hv] at h
+      simp only [Option.some.injEq] at h
+      rcases bind_err h with h0 | ⟨x, hx, h⟩
+      · cases wide with
+        | true =>
+          simp only [if_true] at h0
+          rcases bind_err h0 with h1 | ⟨y, _, h1⟩
+          · exact take?_nofuel _ _ h1
+          · simp [pure, Except.pure] at h1
+        | false =>
+          simp only [Bool.false_eq_true, if_false] at h0
+          rcases bind_err h0 with h1 | ⟨y, _, h1⟩
+          · exact next?_nofuel _ h1
+          · simp [pure, Except.pure] at h1
+      try dsimp only at h
+      rcases bind_err h with h0 | ⟨y, hy, h⟩
+      · exact take?_nofuel _ _ h0
+      try dsimp only at h
+      split at h <;> simp [pure, Except.pure] at h
+
+theorem hdr_count_le (w : Bool) (r : Bytes) (p : Nat × Bytes)
+    (h : (if w = true then do let x ← take? 4 r; pure (fromBe x.fst, x.snd)
+          else do let x ← next? r; pure (x.fst.toNat, x.snd) : Res (Nat × Bytes)) = .ok p)
+    (hg : ¬ (w && decide (p.fst > MAX_ARRAY_COUNT)) = true) : p.fst ≤ MAX_ARRAY_COUNT := by
+  cases w with
+  | true => simp at hg; exact hg
+  | false =>
+    simp only [Bool.false_eq_true, if_false] at h
+    have := hdr_small _ _ h
+    simp only [MAX_ARRAY_COUNT]; omega
+
+theorem need_pred (depth : Nat) (h : depth ≠ 0) : need (depth - 1) + MAX_ARRAY_COUNT + 3 = need depth := by
+  unfold need
+  cases depth with
+  | zero => exact absurd rfl h
+  | succ d => simp only [Nat.add_sub_cancel, Nat.succ_mul]; omega
+
+theorem dec_nofuel_step (fuel : Nat)
+    (ihD : ∀ depth st, need depth ≤ fuel → dec fuel depth st ≠ .error .fuel)
+    (ihN : ∀ depth count st, need depth + count ≤ fuel → decN fuel depth count st ≠ .error .fuel)
+    (ihA : ∀ depth count st a b, need depth + count ≤ fuel → decArr fuel depth count st a b ≠ .error .fuel)
+    (depth : Nat) (st : DSt) (hn : need depth ≤ fuel + 1) : dec (fuel + 1) depth st ≠ .error .fuel := by
+  intro h
+  unfold dec at h
+  dsimp only at h
+  rcases bind_err h with h0 | ⟨c, hc, h⟩
+  · exact codeOrPeek_nofuel _ _ h0
+  by_cases hd : c = cDescribedType
+  · rw [if_pos hd] at h
+    drop_if h with hd0 : depth = 0
+    have hnp := need_pred depth hd0
+    cases hec : st.ec with
+    | some x =>
+      rw [hec] at h; dsimp only at h
+      cases hrest : st.rest with
+      | nil => rw [hrest] at h; simp at h
+      | cons b t => rw [hrest] at h; dsimp only at h; split at h <;> simp at h
+    | none =>
+      rw [hec] at h; dsimp only at h
+      cases hrest : st.rest with
+      | nil => rw [hrest] at h; simp at h
+      | cons b r =>
+        rw [hrest] at h; dsimp only at h
+        cases r with
+        | nil => simp at h
+        | cons dc tail =>
+          dsimp only at h
+          split at h
+          · rcases bind_err h with h0 | ⟨x1, hx1, h⟩
+            · exact ihD _ _ (by omega) h0
+            drop_if h with hemp : List.isEmpty x1.snd.rest = true
+            rcases bind_err h with h0 | ⟨x2, hx2, h⟩
+            · exact ihD _ _ (by omega) h0
+            simp [pure, Except.pure] at h
+          · split at h <;> simp at h
+  rw [if_neg hd] at h
+  by_cases hl0 : c = cList0
+  · rw [if_pos hl0] at h
+    rcases bind_err h with h0 | ⟨p, hp, h⟩
+    · exact codeOrRead_nofuel _ _ h0
+    drop_if h with hd0 : depth = 0
+    simp [pure, Except.pure] at h
+  rw [if_neg hl0] at h
+  by_cases hl : c = cList8 ∨ c = cList32
+  · rw [if_pos hl] at h
+    rcases bind_err h with h0 | ⟨p, hp, h⟩
+    · exact codeOrRead_nofuel _ _ h0
+    rcases bind_err h with h0 | ⟨q1, hq1, h⟩
+    · exact hdr_nofuel _ _ h0
+    rcases bind_err h with h0 | ⟨q2, hq2, h⟩
+    · exact hdr_nofuel _ _ h0
+    drop_if h with hx1 : (decide (c = cList32) && decide (q2.fst > MAX_ARRAY_COUNT)) = true
+    drop_if h with hx2 : q1.fst < if decide (c = cList32) = true then OFFSET_LIST32 else OFFSET_LIST8
+    drop_if h with hd0 : depth = 0
+    have hnp := need_pred depth hd0
+    have hcnt := hdr_count_le _ _ _ hq2 hx1
+    rcases bind_err h with h0 | ⟨r, hr, h⟩
+    · exact ihN _ _ _ (by omega) h0
+    simp [pure, Except.pure] at h
+  rw [if_neg hl] at h
+  by_cases hm : c = cMap8 ∨ c = cMap32
+  · rw [if_pos hm] at h
+    rcases bind_err h with h0 | ⟨p, hp, h⟩
+    · exact codeOrRead_nofuel _ _ h0
+    rcases bind_err h with h0 | ⟨q1, hq1, h⟩
+    · exact hdr_nofuel _ _ h0
+    rcases bind_err h with h0 | ⟨q2, hq2, h⟩
+    · exact hdr_nofuel _ _ h0
+    drop_if h with hx1 : (decide (c = cMap32) && decide (q2.fst > MAX_ARRAY_COUNT)) = true
+    drop_if h with hx2 : q1.fst < if decide (c = cMap32) = true then OFFSET_MAP32 else OFFSET_MAP8
+    drop_if h with hx3 : q2.fst % 2 ≠ 0
+    drop_if h with hd0 : depth = 0
+    have hnp := need_pred depth hd0
+    have hcnt := hdr_count_le _ _ _ hq2 hx1
+    rcases bind_err h with h0 | ⟨r, hr, h⟩
+    · exact ihN _ _ _ (by omega) h0
+    simp [pure, Except.pure] at h
+  rw [if_neg hm] at h
+  by_cases ha : c = cArray8 ∨ c = cArray32
+  · rw [if_pos ha] at h
+    rcases bind_err h with h0 | ⟨p, hp, h⟩
+    · exact codeOrRead_nofuel _ _ h0
+    rcases bind_err h with h0 | ⟨q1, hq1, h⟩
+    · exact hdr_nofuel _ _ h0
+    rcases bind_err h with h0 | ⟨q2, hq2, h⟩
+    · exact hdr_nofuel _ _ h0
+    drop_if h with hx1 : q2.fst > MAX_ARRAY_COUNT ∨ q2.fst > q1.fst
+    by_cases hz : q2.fst = 0
+    · rw [if_pos hz] at h
+      drop_if h with hd0 : depth = 0
+      simp [pure, Except.pure] at h
+    rw [if_neg hz] at h
+    rcases bind_err h with h0 | ⟨x3, hx3, h⟩
+    · exact next?_nofuel _ h0
+    drop_if h with hx4 : (!isCode x3.fst.toNat) = true
+    drop_if h with hx5 : (zeroWidth x3.fst.toNat && decide (st.zw < q2.fst)) = true
+    drop_if h with hx6 : q1.fst < if decide (c = cArray32) = true then OFFSET_ARRAY32 else OFFSET_ARRAY8
+    drop_if h with hd0 : depth = 0
+    have hnp := need_pred depth hd0
+    rcases bind_err h with h0 | ⟨r, hr, h⟩
+    · exact ihA _ _ _ _ _ (by omega) h0
+    simp [pure, Except.pure] at h
+  rw [if_neg ha] at h
+  rcases bind_err h with h0 | ⟨p, hp, h⟩
+  · exact codeOrRead_nofuel _ _ h0
+  cases hds : decScalar p.fst p.snd with
+  | none => rw [hds] at h; simp at h
+  | some res =>
+    rw [hds] at h; dsimp only at h
+    rcases bind_err h with h0 | ⟨x, hx, h⟩
+    · subst h0; exact decScalar_nofuel _ _ hds
+    simp [pure, Except.pure] at h
+
+theorem decN_nofuel_step (fuel : Nat)
+    (ihD : ∀ depth st, need depth ≤ fuel → dec fuel depth st ≠ .error .fuel)
+    (ihN : ∀ depth count st, need depth + count ≤ fuel → decN fuel depth count st ≠ .error .fuel)
+    (depth count : Nat) (st : DSt) (hn : need depth + count ≤ fuel + 1) :
+    decN (fuel + 1) depth count st ≠ .error .fuel := by
+  intro h
+  unfold decN at h
+  cases count with
+  | zero => simp [pure, Except.pure] at h
+  | succ n =>
+    dsimp only at h
+    rcases bind_err h with h0 | ⟨x, hx, h⟩
+    · exact ihD _ _ (by omega) h0
+    rcases bind_err h with h0 | ⟨y, hy, h⟩
+    · exact ihN _ _ _ (by omega) h0
+    simp [pure, Except.pure] at h
+
+theorem decArr_nofuel_step (fuel : Nat)
+    (ihD : ∀ depth st, need depth ≤ fuel → dec fuel depth st ≠ .error .fuel)
+    (ihA : ∀ depth count st a b, need depth + count ≤ fuel → decArr fuel depth count st a b ≠ .error .fuel)
+    (depth count : Nat) (st : DSt) (a b : Nat) (hn : need depth + count ≤ fuel + 1) :
+    decArr (fuel + 1) depth count st a b ≠ .error .fuel := by
+  intro h
+  unfold decArr at h
+  cases count with
+  | zero => simp [pure, Except.pure] at h
+  | succ n =>
+    dsimp only at h
+    rcases bind_err h with h0 | ⟨x, hx, h⟩
+    · exact ihD _ _ (by omega) h0
+    drop_if h with hsz : a - x.snd.rest.length > b
+    rcases bind_err h with h0 | ⟨y, hy, h⟩
+    · exact ihA _ _ _ _ _ (by omega) h0
+    simp [pure, Except.pure] at h
+
+theorem need_pos (depth : Nat) : 1 ≤ need depth := by unfold need; omega
+
+theorem dec_nofuel : ∀ (fuel : Nat),
+    (∀ depth st, need depth ≤ fuel → dec fuel depth st ≠ .error .fuel) ∧
+    (∀ depth count st, need depth + count ≤ fuel → decN fuel depth count st ≠ .error .fuel) ∧
+    (∀ depth count st a b, need depth + count ≤ fuel → decArr fuel depth count st a b ≠ .error .fuel)
+  | 0 => by
+    refine ⟨?_, ?_, ?_⟩
+    · intro depth st h; have := need_pos depth; omega
+    · intro depth count st h; have := need_pos depth; omega
+    · intro depth count st a b h; have := need_pos depth; omega
+  | fuel + 1 => by
+    obtain ⟨ihD, ihN, ihA⟩ := dec_nofuel fuel
+    exact ⟨dec_nofuel_step fuel ihD ihN ihA, decN_nofuel_step fuel ihD ihN, decArr_nofuel_step fuel ihD ihA⟩
+
+theorem need_le_decodeFuel (n : Nat) : need MAX_NESTING_DEPTH ≤ decodeFuel n := by
+  simp only [need, decodeFuel, MAX_NESTING_DEPTH, MAX_ARRAY_COUNT]; omega
+
+end Amqp.Codec
